@@ -48,11 +48,21 @@ CHECKS = {
         technique="TLA+ decoder parse automaton + field-mutation operators model-checked by TLC with action coverage; TLC-built mutant buffers and valid encodings replayed on the real decoders; recorded decode outcomes (incl. PIL facts for JPEG) trace-validated",
         text="TLC explores the compressed_segmentation parse automaton on every (structural field x boundary value) mutant of bounded valid encodings, and the raw / JPEG wrapper automata over all size / PIL fact combinations, proving a total outcome in {Ok, Err} and Valid => Ok(CSegDecode) (the code's former deviation positions are shown to violate this). All TLC-built mutants, TLC-built valid encodings (incl. non-cubic blocks) and seeded corrupted byte strings (random, truncations, bit/byte/word edits, inserts, request mismatches) for raw, compressed_segmentation and jpeg are decoded by the real code under a 5 s alarm and judged by TLC: array of the requested shape and dtype or InvalidFormatError; valid data never rejected or mis-decoded.",
         note=TRUST + "; 'never hangs' is a timeout on executed inputs; JPEG pixel decoding is an environment fact reported by PIL; 'valid' is the strict canonical reading so a decoder is not blamed for rejecting exotic layouts, and lenient right-shaped results on malformed bytes are allowed."),
+    "C11": dict(
+        cat="model_checking", ref="5.C11",
+        technique="TLA+ oracle Convert (nearest representable, ties-to-even, saturating) on exact bit-sequence values, validated by TLC on scaled-down types; real get_chunk_dtype_transformer results for all dtype pairs, both buffer modes and memory layouts judged by the TLC trace spec",
+        text="TLC proves on scaled-down types (3- and 4-bit signed/unsigned integers, a toy float) that the oracle Convert is the nearest-representable function with ties to even, monotone, idempotent and saturating; the real transformer is then run on all (int8..uint64, float32, float64) x (uint8, uint16, uint32, uint64, float32) pairs with anchor values (limits of both types +- {0, 1/2, 1, 3/2}, 2^24, 2^53 +- 1, halves) and random values, in both preserve_input modes and on contiguous, strided, Fortran-ordered and read-only inputs; input bits before/after and output bits are judged by TLC (Nearest, InputModified, ModeDependent, Raised).",
+        note=TRUST + "; exact values are obtained from float.hex()/int (no decimal rounding)."),
     "C12": dict(
         cat="model_checking", ref="5.C12",
         technique="TLA+ state machine of the file accessor (paths, gzip/MIME rules, probe order, ghost 'latest' variables) model-checked by TLC; TLC-generated and random store histories replayed on real accessors and validated step by step by a stateful trace spec; confinement probes for both file accessors",
         text="TLC explores all store histories up to the bound under the four writer configurations and proves LastWriteWins / NoOverwrite / PathsDocumented for the design (and shows the mixed-MIME deviation breaks them); TLC-simulated behaviours and longer random histories run on real FileAccessor objects, and after every step the directory tree (strict independent gzip inflate), every name and every chunk through all four reader configurations are recorded and checked by Trace_FileStore; path-confinement probes (.., nested .., absolute) for FileAccessor and ShardedFileAccessor.",
         note=TRUST + "; known finding: same name stored with MIME types of different compressibility (see known_findings.json)."),
+    "C13": dict(
+        cat="model_checking", ref="5.C13",
+        technique="TLA+ command state machine (Pipeline) model-checked by TLC; conversion programs built by the real tools and run as sub-processes (incl. loopback HTTP and sharded sources); per-command snapshots judged by the stateful trace spec",
+        text="TLC explores the command-level design (one action per documented command, abstract contents) and proves ConvertPreserves, SourceUntouched and SuccessMeansComplete on every program of the bounded alphabet; 67 conversion classes (same type across encodings, raw<->compressed_segmentation, all widenings, rounding/clipping, unsharded<->sharded in every pairing, --copy-info, 2-3 channels, fewer destination scales, other chunk sizes, labels beyond 2^31/2^53/2^63, HTTP sources, repeated conversion) are built by the real tools and converted by convert-chunks as a real sub-process; destination = Convert(source) at every scale and chunk, source tree hash unchanged, exit 0 => complete - judged by Trace_Pipeline.",
+        note=TRUST + "; a non-zero exit makes no claim on the destination (recorded as DRIFT); voxel equality is decided by TLC on exactly re-encoded, interned arrays."),
     "C14": dict(
         cat="model_checking", ref="5.C14",
         technique="TLA+ model of the HTTP client request sequence x server fault behaviours model-checked by TLC; TLC-exported fault schedules replayed against a loopback server implementing the documented serving rules; fetch results validated by the trace spec against local reads",
@@ -78,6 +88,16 @@ CHECKS = {
         technique="TLA+ refinement of store operations into I/O steps with Fail/Crash actions model-checked by TLC; real operations re-run once per (I/O call, errno) and per crash point under an in-process interposer, every HTTP request faulted once; outcomes classified and judged by the TLC trace spec",
         text="TLC enumerates every step x {failure, crash before, torn write} of the file-store and shard-close designs and proves the three clauses of the adopted reading (a failed step ends in an error or in a true postcondition; other names untouched; after a crash every chunk is Correct, Old, Absent or detectably Invalid - and shows that writing the shard index first would break this). On the real code a dry run under an interposer (open/write/read/seek/close/stat/mkdir/unlink below the library) lists the I/O calls of each scenario (file accessor deep/flat x gzip x raw/compressed_segmentation: new chunk, overwrite, fetch, info store/fetch/exists; sharded accessor in-memory/on-disk x raw/gzip: write session + close, fetch, file API), then one injected run per (call, plausible errno) and per crash point is made; a fresh accessor + PrecomputedIO reads every chunk afterwards and TLC classifies the results. HTTP: every single fault placement on plain, .shard and legacy fetches.",
         note=TRUST + "; crash model = prefix of the write sequence (last write possibly torn), directory entries persist; OS-level reordering and power-loss of unsynced data are not modelled; clause (1) counts OSError subclasses (incl. requests exceptions, ShardedIOError) and DataAccessError as I/O errors."),
+    "C19": dict(
+        cat="model_checking", ref="5.C19",
+        technique="TLA+ command state machine model-checked by TLC on every program of bounded length; TLC-exported witness programs replayed as real sub-processes; stateful trace validation of per-command snapshots (oracle -> VIOLATION, design -> DRIFT)",
+        text="TLC explores the command-level design (GenInfo, GenScales, VolToPrecomputed, ComputeScales, ConvertChunks, ScaleStats, AllInOne, hand edit of an info) on every program of length <= 6 over two directories and option alphabets and proves AllInOneEqualsSteps, RepeatIsNoop, SuccessMeansComplete, SourceUntouched (both deviation switches fail as required); TLC-exported witness programs (one per abstract situation) are run as real sub-processes on synthetic volumes (uint8..uint64, float32, int16/float64, 2-3 channels, RGB, 1-3 scales, four file layouts, sharded) and every per-command snapshot (exit code, info, all decoded chunks, tree hashes) is judged by Trace_Pipeline.",
+        note=TRUST + "; content ids are abstract in the model, voxel equality is decided by TLC on exactly re-encoded arrays; stratified seeded sample of exported programs (33 quick / 600 thorough)."),
+    "C20": dict(
+        cat="model_checking", ref="5.C20",
+        technique="TLA+ oracle for the human-readable formatter on bit-sequence counts (Stats) and for the statistics report (Pipeline); integer bands through the real readable_count and scale-stats output of real produced datasets judged by TLC trace specs",
+        text="The real readable_count is run on every count 0..20000, +-300 around m*1024^k (m in {1,10,100,1000,1024}, k <= 6), powers of two up to 2^70 +- 2 and a stride sample; the tokenised string is judged by TLC against the contract (digits[.digit] SP prefix; >= 2 significant digits when count >= 10; <= 6 characters up to 2^60; within half a unit of the last shown digit). scale-stats is run after real conversions (unsharded and sharded) and its stdout, tokenised losslessly, is judged by Trace_Pipeline against the chunk files / minishard entries actually on disk and the decoded sizes (per scale and totals).",
+        note=TRUST + "; chunk counts are compared for completely produced scales; sizes through the shown string within rounding distance."),
 }
 
 NOT_APPLICABLE_REASONS = {}
